@@ -1,1 +1,4 @@
-/-! Property theorems for C04 (not built yet). -/
+import Cellml.Expr.Infer
+namespace Cellml.Props.C04
+theorem placeholder : True := trivial
+end Cellml.Props.C04
